@@ -607,7 +607,13 @@ class Interp:
                 if sv[0] in ('tuple', 'list'):
                     args += list(sv[1])
                 else:
-                    raise Unknown('starred call with a non-literal sequence')
+                    # f(*xs) with xs not a literal: only library callables stay representable (opaque call on a starred argument)
+                    nm = f.id if isinstance(f, ast.Name) else (f.attr if isinstance(f, ast.Attribute) else None)
+                    in_repo = nm is None or nm in self.repo.funcs_by_name or any(nm in c for c in self.repo.classes.values()) or nm in self.repo.classes \
+                        or (isinstance(f, ast.Name) and nm in fr.env)
+                    if in_repo or len(n.args) != 1 or n.keywords:
+                        raise Unknown('starred call with a non-literal sequence')
+                    return CALL(S(nm) if isinstance(f, ast.Name) else A(self.ex(f.value, fr), nm), [('starred', sv)])
             else:
                 args.append(self.ex(a, fr))
         kw = [(k.arg, self.ex(k.value, fr)) for k in n.keywords]
